@@ -57,8 +57,17 @@ def default_run_one(mod, case, tally):
         for e in obs.trace.events:
             tally.events[e[2] + "." + e[3]] += 1
         tally.interleavings.setdefault(case.get("family", "?") + "/" + be, set()).add(obs.trace.order_hash())
-        for f in mod.check(case, obs, tally):
-            f = dict(f)
+        got = [dict(f) for f in mod.check(case, obs, tally)]
+        if obs.handler == "exception" and not any("crash" in f["sig"] for f in got) and getattr(mod, "CRASH_IS_VIOLATION", True):
+            # an unhandled exception out of the connection handler on this property's (well-formed) workload means the
+            # property's deliveries cannot have happened either; never fold it into "inconclusive"
+            exc = (obs.handler_exc or "").strip().splitlines()[-1][:80] if obs.handler_exc else "?"
+            name = exc.split(":")[0].split(".")[-1].strip("| ") or "Exception"
+            got.append({"clause": "crash", "sig": "%s.handler-crashed/%s" % (mod.ID, name),
+                        "detail": "the connection handler raised on this workload: %s" % (obs.handler_exc or "")[-700:]})
+        if obs.spin and not any("spin" in f["sig"] for f in got):
+            got.append({"clause": "spin", "sig": "%s.spin" % mod.ID, "detail": str(obs.spin)})
+        for f in got:
             f["backend"] = be
             findings.append(f)
     return findings, obs_list
